@@ -67,7 +67,10 @@ def plan(prop, tier):
                 g(N=7, D=1, P=1, depth=14, ops=("submit", "clean"))]
         gens += [sc([G, G, G, G, "clean", "save", "load"]), sc([G, G, "clean", G, G], works=(1, 3)), sc([G, G, G, "save", "load", G, "clean"], D=1, P=1)]
         gens += [sc([G, G, G, G, "clean", "save", "load"], works=(1,), ties=True), sc([G, G, G, "clean", G, "save", "load", G], D=2, P=2, works=(1,), ties=True),
-                 g(D=2, P=3, ops=maint_ops, n=num // 2, works=(1,), ties=True)]
+                 g(D=2, P=3, ops=maint_ops, n=num // 2, works=(1,), ties=True),
+                 # the implementation's own scale: 5000 headers per block, exported Clean / Load (prune depth 10000),
+                 # the automatic clean at height 10000
+                 sc([G, G, G, "clean", "save", "load"], N=3, D=3, P=2, S=(5000,), flags=["-realclean"])]
     elif prop == "C07":
         exh = [("core", 4, 1, 2, 2)] + ([] if quick else [("core", 5, 1, 2, 1)])
         gens = [g(D=1, P=2, subs=2, ops=("submit", "subscribe", "clean"), big=400),
@@ -76,7 +79,8 @@ def plan(prop, tier):
                 g(N=5, D=1, P=2, subs=1, depth=8, ops=("submit", "subscribe")),
                 g(N=7, D=2, P=3, subs=1, depth=14, ops=("submit", "subscribe"))]
         gens += [sc(["subscribe", G, G, G, G], subs=1), sc([G, "subscribe", G, G, G, "subscribe"], subs=2, works=(1, 3)), sc([G, G, "subscribe", "clean", G, G], subs=1, D=1, P=2),
-                 sc(["subscribe", G, G, G, G], subs=1, works=(1,), ties=True)]
+                 sc(["subscribe", G, G, G, G], subs=1, works=(1,), ties=True),
+                 sc(["subscribe", G, G, G], subs=1, N=3, D=3, P=2, S=(5000,), flags=["-realclean"])]
     elif prop == "C08":
         exh = [("core", 4, d, 2, 1) for d in (0, 1, 2)] + ([] if quick else [("core", 5, 1, 2, 1)])
         gens = [g(D=d, P=max(2, d), ops=("submit", "clean", "save"), flags=["-twin"], big=(400 if d == 1 else None),
@@ -94,7 +98,8 @@ def plan(prop, tier):
                  sc(["legacy", G, G, "clean", G], D=2, P=1),
                  # a fork becomes the best chain because the competing header is marked invalid, is consolidated
                  # and then pruned from memory
-                 sc([G, G, "mark", "clean", G, G, "clean"], D=4, P=1)]
+                 sc([G, G, "mark", "clean", G, G, "clean"], D=4, P=1),
+                 sc([G, G, G, "clean", "save", "load"], N=3, D=3, P=2, S=(5000,), flags=["-realclean"])]
     elif prop == "C10":
         exh = [("maint", 4, 1, 2, 1), ("maint", 4, 2, 2, 1)]
         gens = [g(D=1, P=2, ops=("submit", "clean"), big=400), g(D=2, P=2, ops=("submit", "clean"), S=(1, 3, 7)),
@@ -102,7 +107,8 @@ def plan(prop, tier):
                 g(N=7, D=2, P=3, depth=14, ops=("submit", "clean"))]
         gens += [sc([G, G, G, G, "clean"]), sc([G, G, G, "clean", G, "clean"], D=1, P=1), sc([G, G, "clean", G, G, "clean"], works=(1, 3), P=2),
                  sc([G, G, G, "clean", G, "clean"], D=2, P=2, works=(1,), ties=True),
-                 sc(["legacy", G, G, "clean", G, "clean"], D=2, P=1)]
+                 sc(["legacy", G, G, "clean", G, "clean"], D=2, P=1),
+                 sc([G, G, "clean", G, "clean"], N=3, D=3, P=2, S=(5000,), flags=["-realclean"])]
     elif prop == "C11":
         exh = [("maint", 4, 1, 2, 1), ("mark", 3, 3, 2, 1)]
         gens = [g(D=1, P=2, ops=maint_ops, big=500), g(D=2, P=3, ops=maint_ops, S=(1, 3, 7)),
@@ -112,7 +118,8 @@ def plan(prop, tier):
                  sc([G, G, G, "clean", G, "save", "load", G], D=2, P=2, works=(1,), ties=True),
                  # a store written before branches existed (version-0 files), or an empty store, is loaded first
                  dict(sc(["legacy", G, G, "clean", "save", "load", G], D=2, P=2), big=400),
-                 sc(["legacy", G, "save", "load", G, "clean", G], D=4, P=1, S=(1, 7))]
+                 sc(["legacy", G, "save", "load", G, "clean", G], D=4, P=1, S=(1, 7)),
+                 sc([G, G, "save", G, "save", "load"], N=3, D=3, P=2, S=(5000,), flags=["-realclean"])]
     elif prop == "C12":
         exh = [("maint", 4, 1, 2, 1)]
         gens = [g(D=1, P=2, ops=("submit", "clean", "save", "reload"), flags=["-crash"], big=400),
